@@ -62,7 +62,7 @@ def build(ctx, evo):
     """Materialise evolution number `evo`: returns the case {evo, files:[{name,text,writer,cls,kind,relaxed}]}.
     Raises Skip when no directory could be produced (inconclusive / out of domain)."""
     rng = ctx.rand("evo", evo)
-    steps = L.gen_evolution(rng, nsteps=6)
+    steps = L.gen_evolution(rng, nsteps=6, focus=L.FOCUS[evo % len(L.FOCUS)])
     d = ctx.casedir("-e%d" % evo)
     mig = os.path.join(d, "migrations")
     os.makedirs(mig)
@@ -130,13 +130,24 @@ def inside(pos, spans):
     return any(a <= pos < b for a, b in spans)
 
 
-def judge_file(f, before, after, diags):
-    """Compare the DS1xx diagnostics of one file with what the facts demand.
-    Returns (problems, observed) where problems = [(key, what)] and observed is a digestable summary."""
-    text = f["text"]
-    stmts = L.split_sql(text)
-    drop_table, drop_col, groups = L.analyze_file(stmts)
-    exp_t, exp_c, virt = L.expected_drops(before, after)
+def judge_file(f, rec, diags):
+    """Compare the DS1xx diagnostics of one file with what the facts demand (rec = L.track_file record).
+    Returns (problems, observed, details) where problems = [(key, what)] and observed is a digestable summary."""
+    stmts, groups, before, after = rec["stmts"], rec["groups"], rec["before"], rec["after"]
+    exp_t = [t for t, _ in rec["tables"]]
+    exp_c = [(t, c) for t, c, _ in rec["columns"]]
+    virt = rec["virtual"]
+
+    def span(a, b):
+        return [(stmts[a].region, stmts[b].end)]
+    t_span = {t: span(i, i) for t, i in rec["tables"]}
+    c_span = {(t, c): span(*cause) for t, c, cause in rec["columns"]}
+    c_cause = {(t, c): cause for t, c, cause in rec["columns"]}
+    g_span = {}
+    for g in groups:
+        g_span.setdefault(g[0], []).extend(span(g[2], g[4]))
+    # a foreign statement sitting where the INSERT .. SELECT of a mergeable rebuild (CREATE new_t, ?, DROP t, RENAME) is
+    slot = {g[2] + 1 for g in groups if g[1] == "new_" + g[0] and g[3] == g[2] + 2 and g[4] == g[2] + 3}
     created = {s.args[0] for s in stmts if s.kind == "create_table"}
     canon_tmp = {g[1] for g in groups if g[5]}
     relaxed = set(f.get("relaxed") or [])
@@ -150,66 +161,76 @@ def judge_file(f, before, after, diags):
             t = names[0] if names else None
             if t in covered_t:
                 covered_t[t] += 1
-                if not inside(pos, drop_table.get(t, [])):
-                    problems.append(("pos|DS102|%s|%s" % (cls, writer), "DS102 for table %r at Pos %r which is not inside a DROP TABLE %s statement" % (t, pos, t)))
-            elif t in relaxed and t in before and t in after and inside(pos, drop_col.get(t, [])):
+                if not inside(pos, t_span[t]):
+                    problems.append(("pos|DS102|%s|%s" % (cls, writer), "DS102 for table %r at Pos %r which is not inside the statement that drops it (%r)" % (t, pos, t_span[t])))
+            elif t in relaxed and inside(pos, g_span.get(t, [])):
                 # non-canonical hand-written rebuild: a destructive diagnostic inside the group is what the statement asks for
-                for tc in covered_c:
-                    if tc[0] == t:
-                        covered_c[tc] += 1
-                if not [tc for tc in covered_c if tc[0] == t]:
+                mine = [tc for tc in covered_c if tc[0] == t and inside(pos, c_span[tc])]
+                for tc in mine:
+                    covered_c[tc] += 1
+                if not mine:
                     problems.append(("spurious|DS102|%s|%s" % (cls, writer), "DS102 %r on a rebuild that loses no non-virtual column" % t))
             elif t is not None and t.startswith("new_") and t in created and t not in before and t not in after and t not in canon_tmp:
                 problems.append(("spurious|DS102|temporary-table-named-new_*",
                                  "table %r is created and dropped inside %s (temporary object) yet DS102 is reported at Pos %r" % (t, f["name"], pos)))
             else:
-                problems.append(("spurious|DS102|%s|%s" % (cls, writer), "DS102 %r at Pos %r: table was not dropped by this file (before=%s after=%s)" % (t, pos, t in before, t in after)))
+                problems.append(("spurious|DS102|%s|%s" % (cls, writer), "DS102 %r at Pos %r: no table of that name that existed before the file is dropped by it (before=%s after=%s)" % (t, pos, t in before, t in after)))
         elif code == "DS103":
-            cands = [t for t in drop_col if inside(pos, drop_col[t])]
             for c in names:
-                hit = [(t, c) for t in cands if (t, c) in covered_c]
+                hit = [tc for tc in covered_c if tc[1] == c and inside(pos, c_span[tc])]
                 if hit:
                     covered_c[hit[0]] += 1
                     continue
                 elsewhere = [tc for tc in covered_c if tc[1] == c]
                 if elsewhere:
                     covered_c[elsewhere[0]] += 1
-                    problems.append(("pos|DS103|%s|%s" % (cls, writer), "DS103 for column %r at Pos %r which is not inside the statement / rebuild group dropping %s.%s" % (c, pos, elsewhere[0][0], c)))
+                    problems.append(("pos|DS103|%s|%s" % (cls, writer), "DS103 for column %r at Pos %r which is not inside the statement / rebuild group dropping %s.%s (%r)" % (c, pos, elsewhere[0][0], c, c_span[elsewhere[0]])))
                 elif [x for x in stmts if x.region <= pos < x.end and x.kind == "drop_column" and x.args[0].startswith("new_")
                       and x.args[0] in created and x.args[0] not in before and x.args[0] not in canon_tmp]:
                     problems.append(("spurious|DS103|column-of-table-named-new_*-created-in-file",
                                      "column %r belongs to a table created inside %s (nothing that existed before is lost) yet DS103 is reported at Pos %r" % (c, f["name"], pos)))
                 else:
                     vv = [tc for tc in virt if tc[1] == c]
-                    problems.append(("spurious|DS103|%s|%s|%s" % ("virtual" if vv else "not-dropped", cls, writer), "DS103 names column %r at Pos %r: %s" % (c, pos, "it is VIRTUAL" if vv else "no such non-virtual column was dropped by this file")))
+                    problems.append(("spurious|DS103|%s|%s|%s" % ("virtual" if vv else "not-dropped", cls, writer), "DS103 names column %r at Pos %r: %s" % (c, pos, "it is VIRTUAL" if vv else "no such non-virtual pre-existing column was dropped by this file")))
             if not names:
                 problems.append(("spurious|DS103|unnamed|%s|%s" % (cls, writer), "DS103 without a column name: %r" % d.get("Text")))
         else:
             problems.append(("spurious|%s|%s|%s" % (code, cls, writer), "unexpected destructive diagnostic %r" % d))
-    for t, n in covered_t.items():
+    for t, i in rec["tables"]:
+        n = covered_t[t]
         if n == 0:
-            if ("new_" + t) in created and ("new_" + t) not in canon_tmp:
+            if i in slot:
+                problems.append(("missing|DS102|statement-between-CREATE-new_<t>-and-DROP-<t>-of-a-rebuild",
+                                 "table %r existed before %s and is dropped by statement %d, which sits between the CREATE and the DROP of a table rebuild; no DS102" % (t, f["name"], i + 1)))
+            elif ("new_" + t) in created and ("new_" + t) not in canon_tmp:
                 problems.append(("missing|DS102|file-creates-new_<t>-and-drops-<t>",
                                  "table %r existed before %s and is dropped by it, no DS102; the same file creates table %r" % (t, f["name"], "new_" + t)))
             else:
-                problems.append(("missing|DS102|%s|%s" % (cls, writer), "table %r existed before %s and is dropped by it, no DS102 diagnostic" % (t, f["name"])))
+                problems.append(("missing|DS102|%s|%s" % (cls, writer), "table %r existed before %s and is dropped by it (statement %d), no DS102 diagnostic" % (t, f["name"], i + 1)))
         elif n > 1:
             problems.append(("duplicate|DS102|%s|%s" % (cls, writer), "%d DS102 diagnostics for table %r" % (n, t)))
     for (t, c), n in covered_c.items():
         if n == 0:
-            how = "alter" if (t in drop_col and any(s.kind == "drop_column" and s.args == (t, c) for s in stmts)) else "rebuild"
+            a, b = c_cause[(t, c)]
+            how = "alter" if a == b else "rebuild"
             sib = [s for s in stmts if s.kind == "create_table" and s.args[0] == "new_" + t and "new_" + t not in canon_tmp and ("`%s`" % c) in s.text]
-            if sib:
+            if a == b and a in slot:
+                problems.append(("missing|DS103|statement-between-CREATE-new_<t>-and-DROP-<t>-of-a-rebuild",
+                                 "non-virtual column %s.%s existed before %s and is dropped by statement %d, which sits between the CREATE and the DROP of a table rebuild; no DS103" % (t, c, f["name"], a + 1)))
+            elif sib:
                 problems.append(("missing|DS103|file-creates-new_<t>-with-column-<c>-and-drops-<t>.<c>",
                                  "non-virtual column %s.%s existed before %s and is dropped by it (%s), no DS103; the same file creates table %r with a column %r" % (t, c, f["name"], how, "new_" + t, c)))
-                continue
-            problems.append(("missing|DS103|%s|%s|%s" % (how, cls, writer), "non-virtual column %s.%s existed before %s and is dropped by it (%s), no DS103 diagnostic" % (t, c, f["name"], how)))
+            else:
+                problems.append(("missing|DS103|%s|%s|%s" % (how, cls, writer), "non-virtual column %s.%s existed before %s and is dropped by it (%s, statements %d-%d), no DS103 diagnostic" % (t, c, f["name"], how, a + 1, b + 1)))
         elif n > 1:
             problems.append(("duplicate|DS103|%s|%s" % (cls, writer), "%d diagnostics for column %s.%s" % (n, t, c)))
+    readded = sorted(tc for tc in exp_c if tc[0] in after and tc[1] in after[tc[0]])
+    recreated = sorted(t for t in exp_t if t in after)
     observed = {"cls": cls, "writer": writer, "exp_tables": len(exp_t), "exp_cols": len(exp_c), "virt": len(virt),
+                "readded": len(readded), "recreated": len(recreated),
                 "diags": sorted((d.get("Code"), len(L.diag_names(d.get("Text") or ""))) for d in diags),
                 "groups": sorted((g[5],) for g in groups), "nstmts": min(len(stmts), 11)}
-    return problems, observed, (exp_t, exp_c, virt, groups, stmts)
+    return problems, observed, (exp_t, exp_c, virt, groups, stmts, readded, recreated)
 
 
 def wclass(n, total):
@@ -219,8 +240,8 @@ def wclass(n, total):
 def judge_window(ctx, case, n, rc, rep, out, err, verbose=False):
     files = case["files"]
     total = len(files)
-    facts = case.get("_facts") or L.replay_facts([f["text"] for f in files])
-    case["_facts"] = facts
+    recs = case.get("_facts") or L.replay_files([f["text"] for f in files])
+    case["_facts"] = recs
     pub = {"evo": case.get("evo"), "N": n, "files": [{k: v for k, v in f.items()} for f in files]}
     wc = wclass(n, total)
     if rc == 124:
@@ -253,7 +274,7 @@ def judge_window(ctx, case, n, rc, rep, out, err, verbose=False):
         diags = [d for r in (fr.get("Reports") or []) for d in (r.get("Diagnostics") or []) if str(d.get("Code", "")).startswith("DS1")]
         other = [d.get("Code") for r in (fr.get("Reports") or []) for d in (r.get("Diagnostics") or []) if not str(d.get("Code", "")).startswith("DS1")]
         any_ds = any_ds or bool(diags)
-        problems, observed, (exp_t, exp_c, virt, groups, stmts) = judge_file(f, facts[i], facts[i + 1], diags)
+        problems, observed, (exp_t, exp_c, virt, groups, stmts, readded, recreated) = judge_file(f, recs[i], diags)
         first_path = (i == 0 and n >= total and len(stmts) > 10)
         observed["first_path"] = first_path
         ctx.eval(vlib.digest(observed), True)
@@ -274,10 +295,16 @@ def judge_window(ctx, case, n, rc, rep, out, err, verbose=False):
             ctx.count("expected|columns", len(exp_c))
         if virt:
             ctx.count("expected-silent|virtual-columns", len(virt))
+        if readded:
+            ctx.count("expected|columns-dropped-and-re-added-in-file", len(readded))
+        if recreated:
+            ctx.count("expected|tables-dropped-and-re-created-in-file", len(recreated))
+        if exp_c and virt and any(t == vt for t, _ in exp_c for vt, _ in virt):
+            ctx.count("file-dropping-virtual-and-regular-columns-of-one-table|%s" % f["writer"])
         if not (exp_t or exp_c):
             ctx.count("clean-file|%s" % f["cls"])
         smp = {"file": f["name"], "evo": case.get("evo"), "N": n, "class": f["cls"], "writer": f["writer"], "ops": f.get("ops"),
-               "expected": {"tables": exp_t, "columns": exp_c, "virtual_dropped": virt},
+               "expected": {"tables": exp_t, "columns": exp_c, "virtual_dropped": virt, "re_added": readded, "re_created": recreated},
                "diagnostics": [{"Code": d.get("Code"), "Pos": d.get("Pos"), "Text": d.get("Text"), "at": f["text"][d.get("Pos", 0):d.get("Pos", 0) + 40]} for d in diags]}
         if verbose:
             print(json.dumps({"file": smp, "problems": problems}, indent=1))
